@@ -33,3 +33,260 @@ M("C20", "forms-cycle", FORMS, "CART + CYL\n", "CART + CYL\nCYL + SPHE\n", "R20.
 M("C20", "scales-disconnected", DATE, "TDB + TT + TAI\n", "TDB + TT\n", "R20.1")
 M("C20", "routes-written-outside", CENTER, "        self.offset = offset\n", "        self.offset = offset\n        self.node.routes = {}\n", "R20.3")
 R("C20", "comment-only", NODE, "        self._update()\n        return other", "        # refresh\n        self._update()\n        return other")
+
+SV = "beyond/orbits/statevector.py"
+ORB = "beyond/orbits/orbit.py"
+COVF = "beyond/orbits/cov.py"
+MATRIX = "beyond/utils/matrix.py"
+I80 = "beyond/frames/iau1980.py"
+I10 = "beyond/frames/iau2010.py"
+EOP = "beyond/dates/eop.py"
+FRAMES = "beyond/frames/frames.py"
+KEP = "beyond/propagators/kepler.py"
+J2 = "beyond/propagators/j2.py"
+KN = "beyond/propagators/keplernum.py"
+BASE = "beyond/propagators/base.py"
+SGP4 = "beyond/propagators/sgp4.py"
+BETA = "beyond/propagators/sgp4beta.py"
+TLE = "beyond/io/tle.py"
+OPM = "beyond/io/ccsds/opm.py"
+OEM = "beyond/io/ccsds/oem.py"
+OMM = "beyond/io/ccsds/omm.py"
+TDM = "beyond/io/ccsds/tdm.py"
+CCOV = "beyond/io/ccsds/cov.py"
+COMMONS = "beyond/io/ccsds/commons.py"
+EPH = "beyond/orbits/ephem.py"
+INTERP = "beyond/utils/interp.py"
+LIS = "beyond/propagators/listeners.py"
+LOCAL = "beyond/frames/local.py"
+MAN = "beyond/orbits/man.py"
+SOL = "beyond/env/solarsystem.py"
+JPL = "beyond/env/jpl.py"
+LAM = "beyond/utils/lambert.py"
+LEO = "beyond/utils/leo.py"
+LTAN = "beyond/utils/ltan.py"
+CONS = "beyond/utils/constellation.py"
+BETAU = "beyond/utils/beta.py"
+INTER = "beyond/utils/interplanetary.py"
+MEAS = "beyond/utils/measures.py"
+
+# ---- C01
+M("C01", "cyl-velocity-sign", FORMS, "vx = r_dot * cos(θ) - r * sin(θ) * θ_dot", "vx = r_dot * cos(θ) + r * sin(θ) * θ_dot", "R01.5")
+M("C01", "sphe-phi-dot", FORMS, "vz = r_dot * z / r + r * phi_dot * cos(phi)", "vz = r_dot * z / r + r * phi_dot * sin(phi)", "R01.5")
+M("C01", "hyp-anomaly-sign", FORMS, "sin_ν = -(sinh(E) * sqrt(e ** 2 - 1)) / (1 - e * cosh(E))", "sin_ν = (sinh(E) * sqrt(e ** 2 - 1)) / (1 - e * cosh(E))", "R01.8")
+M("C01", "ecc-anomaly-cos", FORMS, "cos_E = (e + cos(ν)) / (1 + e * cos(ν))\n            sin_E", "cos_E = (e + cos(ν)) / (1 - e * cos(ν))\n            sin_E", "R01.8")
+M("C01", "newton-step", FORMS, "return E + (M - E + e * sin(E)) / (1 - e * cos(E))", "return E + (M - E + e * sin(E)) / (1 + e * cos(E))", "R01.6")
+M("C01", "newton-loop-polarity", FORMS, "while abs(E1 - E) >= tol:", "while abs(E1 - E) <= tol:", "R01.6")
+M("C01", "tle-mean-motion", FORMS, "a = (body.µ / n ** 2) ** (1 / 3)", "a = (body.µ / n ** 3) ** (1 / 2)", "R01.9")
+M("C01", "return-order", FORMS, "return np.array([a, ex, ey, ix, iy, l], dtype=float)", "return np.array([a, ey, ex, ix, iy, l], dtype=float)", "R01.2")
+M("C01", "unpack-order", FORMS, "        a, ex, ey, i, Ω, u = coord\n", "        a, ex, ey, Ω, i, u = coord\n", "R01.2")
+M("C01", "sibling-drift", FORMS, "        α = (ω + M) % (2 * np.pi)", "        α = (ω - M) % (2 * np.pi)", "R01.4")
+M("C01", "alias-hijack", FORMS, '        "maol": "α",\n', '        "maol": "α",\n        "M": "ν",\n', "R01.3")
+M("C01", "cache-wrong-form", FORMS, '    "mean": KEPL_M,', '    "mean": KEPL_E,', "R01.1")
+M("C01", "edge-missing-conversion", FORMS, "    def _keplerian_mean_circular_to_keplerian_mean(cls, coord, body):", "    def _keplerian_mean_circular_to_keplerian_meann(cls, coord, body):", "R01.1")
+M("C01", "infos-energy", SV, "return -self.mu / (2 * self.kep.a)", "return -self.mu / self.kep.a", "R01.12")
+M("C01", "infos-apocenter", SV, "return self.kep.a * (1 + self.kep.e)", "return self.kep.a * (1 + self.kep.e ** 2)", "R01.12")
+M("C01", "infos-vp", SV, "return np.sqrt(self.mu * (2 / (self.rp) - 1 / self.kep.a))", "return np.sqrt(self.mu * (2 / (self.ra) - 1 / self.kep.a))", "R01.12")
+M("C01", "infos-hyperbolic-flag", SV, "        return self.kep.e > 1", "        return self.kep.e >= 1", "R01.12")
+R("C01", "refactor-temp", FORMS, "        ex = e * cos(ω)\n        ey = e * sin(ω)\n        u = (ω + ν) % (np.pi * 2)", "        co = cos(ω)\n        ex = e * co\n        ey = sin(ω) * e\n        u = (ν + ω) % (np.pi * 2)")
+R("C01", "refactor-infos", SV, "return self.kep.a * (1 - self.kep.e)", "a = self.kep.a\n        return a - a * self.kep.e")
+
+# ---- C02
+M("C02", "rot2-sign", MATRIX, "            [np.cos(theta), 0, -np.sin(theta)],\n            [0, 1, 0],\n            [np.sin(theta), 0, np.cos(theta)],", "            [np.cos(theta), 0, np.sin(theta)],\n            [0, 1, 0],\n            [-np.sin(theta), 0, np.cos(theta)],", "R02.4")
+M("C02", "expand-coupling-sign", MATRIX, "        out[3:, :3] = -R @ m", "        out[3:, :3] = R @ m", "R02.4")
+M("C02", "skew-entry", MATRIX, "[[0, -rate[2], rate[1]], [rate[2], 0, -rate[0]], [-rate[1], rate[0], 0]]", "[[0, -rate[2], rate[1]], [rate[2], 0, -rate[0]], [rate[1], -rate[0], 0]]", "R02.4")
+M("C02", "inverse-before-expand", ORIENT, "M = np.linalg.inv(expand(*getattr(self, reverse)(date)))", "M = expand(np.linalg.inv(getattr(self, reverse)(date)[0]))", "R02.3")
+M("C02", "accumulate-right", ORIENT, "            m = M @ m", "            m = m @ M", "R02.3")
+M("C02", "rate-dropped", ORIENT, "        m = iau2010.sideral(date)\n        return m, -iau2010.rate(date)", "        m = iau2010.sideral(date)\n        return m, None", "R02.2")
+M("C02", "rate-sign", ORIENT, "        return m, -iau1980.rate(date)", "        return m, iau1980.rate(date)", "R02.2")
+M("C02", "center-reverse-sign", CENTER, "                offset = -getattr(self, reverse)(date, orientation)", "                offset = getattr(self, reverse)(date, orientation)", "R02.3")
+M("C02", "offset-old-orientation", FRAMES, "            orbit.date, new_frame.center, new_frame.orientation\n", "            orbit.date, new_frame.center, self.orientation\n", "R02.3")
+M("C02", "gmst-scale", I80, '    t = date.change_scale("UT1").julian_century', '    t = date.change_scale("UTC").julian_century', "R02.5")
+M("C02", "era-raw-date", I10, '    jd = date.change_scale("UT1").jd', "    jd = date.jd", "R02.5")
+M("C02", "eop-column", EOP, '"ut1_utc": float(line[58:68]),', '"ut1_utc": float(line[59:68]),', "R02.6")
+M("C02", "eop-unit", I80, "        delta_psi += date.eop.dpsi / 3600000.0", "        delta_psi += date.eop.dpsi / 3600.0", "R02.6")
+M("C02", "polar-motion-order", I10, "    return rot3(-s_prime) @ rot2(x_p) @ rot1(y_p)", "    return rot3(-s_prime) @ rot1(y_p) @ rot2(x_p)", "R02.7")
+M("C02", "g50-matrix-entry", ORIENT, "[0.0111814832391717, 0.9999374848933135, -0.0000271625947142]", "[0.0111814832391717, 0.9999374848933135, 0.0000271625947142]", "R02.7")
+M("C02", "provider-duplicate", ORIENT, "    def MOD_to_EME2000(self, date):", "    def EME2000_to_MOD(self, date):\n        return iau1980.precesion(date), None\n\n    def MOD_to_EME2000(self, date):", "R02.1")
+R("C02", "slice-with-blank", EOP, '"x": float(line[18:27]),', '"x": float(line[17:27]),')
+
+# ---- C03
+M("C03", "tt-tai-constant", DATE, "        return 32.184", "        return 32.148", "R03.1")
+M("C03", "offset-orientation", DATE, "                delta -= getattr(self, roper)(mjd, eop)", "                delta += getattr(self, roper)(mjd, eop)", "R03.1")
+M("C03", "provider-reversed", DATE, "    def _scale_tai_minus_gps(self, mjd, eop):", "    def _scale_gps_minus_tai(self, mjd, eop):", "R03.1")
+M("C03", "eq-on-label", DATE, "        return self._mjd == other._mjd", "        return self.mjd == other.mjd", "R03.2")
+M("C03", "lt-wrong-op", DATE, "        return self._mjd < other._mjd", "        return self._mjd <= other._mjd", "R03.2")
+M("C03", "hash-pair", DATE, "        return hash(self._mjd)", "        return hash((self._d, self._s))", "R03.2")
+M("C03", "contains-onesided", DATE, "                return self.stop < date <= self.start", "                return self.start <= date < self.stop", None)
+M("C03", "policy-warn-raises", EOP, "                log.warning(msg)\n            elif cls.policy() == cls.ERROR:\n                raise", "                log.warning(msg)\n                raise\n            elif cls.policy() == cls.ERROR:\n                raise", "R03.4")
+M("C03", "fallback-missing-field", EOP, "x=0, y=0, dx=0, dy=0, deps=0, dpsi=0, lod=0, ut1_utc=0, tai_utc=0", "x=0, y=0, dx=0, dy=0, deps=0, dpsi=0, lod=0, ut1_utc=0, tai_utc=37", "R03.4")
+M("C03", "add-drops-scale", DATE, "return self.__class__(self.d + int(days), sec, scale=self.scale)", "return self.__class__(self.d + int(days), sec)", "R03.5")
+M("C03", "sub-on-label", DATE, "            return self._datetime - other._datetime", "            return self.datetime - other.datetime", "R03.5")
+M("C03", "convert-carry", DATE, "        d -= int((s + self._offset) // 86400)", "        d -= int((self._s + self._offset) // 86400)", "R03.6")
+M("C03", "len-not-inclusive", DATE, "        if self.inclusive and self.dur % self.step == timedelta(0):", "        if self.dur % self.step == timedelta(0):", "R03.3")
+M("C03", "iter-backward-op", DATE, '            oper = "__ge__" if self.inclusive else "__gt__"', '            oper = "__gt__" if self.inclusive else "__ge__"', "R03.3")
+M("C03", "leap-table-strict", EOP, "            if date <= mjd:\n                return value", "            if date < mjd:\n                return value", "R03.8")
+R("C03", "refactor-contains", DATE, "            if self.inclusive:\n                return self.stop <= date <= self.start", "            if self.inclusive:\n                return self.start >= date >= self.stop")
+
+# ---- C04
+M("C04", "sgp4-own-scale", SGP4, '        utc = date.change_scale("UTC")\n', "        utc = date\n", "C.1")
+M("C04", "tle-own-scale", TLE, 'date = orbit.date.change_scale("UTC").datetime', "date = orbit.date.datetime", "C.1")
+M("C04", "beta-naive", BETA, "tdiff = (date - self.tle.date).total_seconds() / 60.0", "tdiff = (date.datetime - self.tle.date.datetime).total_seconds() / 60.0", "C.1")
+M("C04", "opm-man-epoch", OPM, "            date = date.change_scale(data.date.scale.name)\n\n            text +=", "            text +=", "C.1")
+M("C04", "oem-stop-time", OEM, '"STOP_TIME": data.stop.change_scale(scale).strftime(DATE_FMT_DEFAULT),', '"STOP_TIME": data.stop.strftime(DATE_FMT_DEFAULT),', "C.1")
+M("C04", "kepler-mjd-diff", KEP, "delta_t = (date - self.orbit.date).total_seconds()", "delta_t = (date.mjd - self.orbit.date.mjd) * 86400", "C.1")
+M("C04", "moon-raw-date", SOL, '        date = date.change_scale("TDB")\n        t_tdb = date.julian_century', "        t_tdb = date.julian_century", "C.1")
+M("C04", "branch-on-scale", KEP, "        n = self.orbit.infos.n\n", '        n = self.orbit.infos.n\n        if date.scale.name == "TAI":\n            delta_t -= 37\n', "C.3")
+M("C04", "wrong-label-scale", TDM, "date=m.date.change_scale(measure_set.start.scale.name),", "date=m.date.change_scale(measure_set.stop.scale.name),", "C.1")
+R("C04", "refactor-local", SGP4, '        utc = date.change_scale("UTC")\n        _date = [float(x) for x in f"{utc:%Y %m %d %H %M %S.%f}".split()]', '        _date = [float(x) for x in f"{date.change_scale(\'UTC\'):%Y %m %d %H %M %S.%f}".split()]')
+
+# ---- C05
+M("C05", "kepler-writes-omega", KEP, "        new[5] = self.orbit[5] + delta", "        new[4] = self.orbit[4] + delta", "R05.1")
+M("C05", "kepler-half-rate", KEP, "        delta = n * delta_t", "        delta = n * delta_t / 2", "R05.2")
+M("C05", "j2-node-sin", J2, "        dΩ = -3 / 2 * com * np.cos(i)", "        dΩ = -3 / 2 * com * np.sin(i)", "R05.2")
+M("C05", "j2-perigee-coeff", J2, "        dω = 3 / 4 * com * (4 - 5 * np.sin(i) ** 2)", "        dω = 3 / 4 * com * (5 - 4 * np.sin(i) ** 2)", "R05.2")
+M("C05", "j2-common", J2, "com = n * re ** 2 * Earth.J2 / (a ** 2 * (1 - e ** 2) ** 2)", "com = n * re ** 2 * Earth.J2 / (a ** 2 * (1 - e ** 2))", "R05.2")
+M("C05", "j2-increment-order", J2, "delta = np.array([0.0, 0.0, 0.0, dΩ, dω, dM + n]) * delta_t", "delta = np.array([0.0, 0.0, 0.0, dω, dΩ, dM + n]) * delta_t", "R05.1")
+M("C05", "j2-writes-snapshot", J2, "        new = self.orbit[:] + delta\n", "        new = self.orbit\n        new[:] = new + delta\n", None)
+M("C05", "setter-by-reference", KEP, '        self._orbit = orbit.copy(form="keplerian_mean")', '        orbit.form = "keplerian_mean"\n        self._orbit = orbit', "R05.1")
+R("C05", "refactor-rate", J2, "        dΩ = -3 / 2 * com * np.cos(i)", "        dΩ = -1.5 * np.cos(i) * com")
+
+# ---- C06
+M("C06", "rk4-weight", KN, '"b": array([1 / 6, 1 / 3, 1 / 3, 1 / 6]),', '"b": array([1 / 6, 1 / 3, 1 / 6, 1 / 3]),', "R06.1")
+M("C06", "dopri-a-entry", KN, "array([19372 / 6561, -25360 / 2187, 64448 / 6561, -212 / 729]),", "array([19372 / 6561, -25360 / 2187, 64448 / 6561, -212 / 792]),", "R06.1")
+M("C06", "rkf-bstar", KN, '"b_star": array([25 / 216, 0, 1408 / 2565, 2197 / 4104, -1 / 5, 0]),', '"b_star": array([25 / 216, 0, 1408 / 2565, 2197 / 4104, -1 / 5, 1 / 100]),', "R06.1")
+M("C06", "stage-date", KN, "                y_n_prime.date += step * c", "                y_n_prime.date += step", "R06.2")
+M("C06", "acceptance", KN, "            if p_error <= self.tol:", "            if p_error >= self.tol:", "R06.2")
+M("C06", "gravity-power", KN, "            norm = linalg.norm(diff) ** 3", "            norm = linalg.norm(diff) ** 2", "R06.3")
+M("C06", "march-nominal-step", KN, "            real_step, orb = self._make_step(orb, self.step)\n            ephem.append(orb)\n            date += real_step\n\n        ephem = Ephem(ephem)\n\n        if kwargs", "            real_step, orb = self._make_step(orb, self.step)\n            ephem.append(orb)\n            date += self.step\n\n        ephem = Ephem(ephem)\n\n        if kwargs", "R06.2")
+M("C06", "copy-drops-method", KN, "self.step, self.bodies, method=self.method, frame=self.frame, tol=self.tol", "self.step, self.bodies, frame=self.frame, tol=self.tol", "R06.4")
+R("C06", "refactor-tableau", KN, '"c": array([0, 1 / 2, 1 / 2, 1]),', '"c": array([0, 0.5, 0.5, 1]),')
+
+# ---- C07
+M("C07", "wgs-constant", BETA, "    µ_e = 3.986008e5  # in km³.s⁻²\n    r_e = 6378.135  # km\n    k_e = 60.0", "    µ_e = 3.986005e5  # in km³.s⁻²\n    r_e = 6378.135  # km\n    k_e = 60.0", "R07.2")
+M("C07", "model-84", BETA, "    MODEL = WGS72", "    MODEL = WGS84", "R07.2")
+M("C07", "kepler-step", BETA, "                1 - ayN * sin(Epω) - axN * cos(Epω)", "                1 + ayN * sin(Epω) - axN * cos(Epω)", "R07.2")
+M("C07", "coefficient", BETA, "134.0 * delta_1 ** 3 / 81.0", "143.0 * delta_1 ** 3 / 81.0", "R07.3")
+M("C07", "km-to-m-positions-only", SGP4, "        result = [x * 1000 for x in p + v]", "        result = [x * 1000 for x in p] + list(v)", "R07.1")
+M("C07", "gravity-model-lib", SGP4, "from sgp4.earth_gravity import wgs72\n", "from sgp4.earth_gravity import wgs84 as wgs72\n", "R07.1")
+
+# ---- C08
+M("C08", "kepler-returns-snapshot-view", KEP, '        return new.copy(form="cartesian")', '        new.form = "cartesian"\n        return new', None)
+M("C08", "none-no-copy", "beyond/propagators/none.py", "        orb = self.orbit.copy()\n", "        orb = self.orbit\n", None)
+M("C08", "ephem-exclusive-stop", EPH, "                while date <= stop:", "                while date < stop:", "R08.1")
+M("C08", "frontend-sign", BASE, "            if start > kwargs[\"stop\"] and step.total_seconds() > 0:\n                kwargs[\"step\"] = -step\n\n        listeners", "            if start > kwargs[\"stop\"] and step.total_seconds() > 0:\n                pass\n\n        listeners", "R08.2")
+M("C08", "sgp4-by-reference", SGP4, "        self._orbit = orbit.copy()", "        self._orbit = orbit", "D4")
+M("C08", "ephem-no-invalidate", EPH, "        for orb in self:\n            orb.form = form\n        self._reset_interp()", "        for orb in self:\n            orb.form = form", "D4")
+M("C08", "cw-copy-drops-frame", CW, "        return self.__class__(self.sma, frame=self.frame)", "        return self.__class__(self.sma)", "D8")
+M("C08", "dates-attr", KN, "            dates = list(dates)\n            start = dates[0]\n            stop = dates[-1]", "            start = dates.start\n            stop = dates.stop", "R08.6")
+M("C08", "native-step-no-copy", EPH, "                    yield orb.copy()", "                    yield orb", "R08.1")
+M("C08", "inclusive-dropped", BASE, "            for date in Date.range(start, stop, step, inclusive=True):", "            for date in Date.range(start, stop, step):", "R08.1")
+
+# ---- C09
+M("C09", "range-exclusive", INTERP, "        if not (self.xs[0] <= x <= self.xs[-1]):", "        if not (self.xs[0] <= x < self.xs[-1]):", "R09.1")
+M("C09", "swallowed", INTERP, "            else:\n                raise e", "            else:\n                return None", "R09.1")
+M("C09", "label-mjd", INTERP, "            return super().__call__(date._mjd)", "            return super().__call__(date.mjd)", "R09.1")
+M("C09", "window-stop", INTERP, "        stop = prev_idx + 1 + self.order // 2 + self.order % 2", "        stop = prev_idx + 1 + self.order // 2", "R09.3")
+M("C09", "edge-shift", INTERP, "            start -= stop - len(self.ys)", "            start -= stop - len(self.ys) + 1", "R09.3")
+M("C09", "linear-formula", INTERP, "        return y0 + (y1 - y0) * (x - x0) / (x1 - x0)", "        return y0 + (y1 - y0) * (x - x1) / (x1 - x0)", "R09.4")
+M("C09", "wrong-frame-label", EPH, "        return StateVector(self.interp(date), date, self.form, self.frame)", "        return StateVector(self.interp(date), date, self.form, self._orbits[-1].frame)", "R09.2")
+
+# ---- C10
+M("C10", "clear-conditional", BASE, "        self.clear_listeners(listeners)\n", "        if listeners:\n            pass\n", "R10.1")
+M("C10", "prev-only-on-event", LIS, "            # Saving of the current value for the next iteration\n            listener.prev = orb", "                # Saving of the current value for the next iteration\n                listener.prev = orb", "R10.2")
+M("C10", "unsorted", LIS, "        return sorted(results, key=lambda x: x.date)", "        return results", "R10.2")
+M("C10", "bisect-side", LIS, "            if listener(begin) * listener(orb) > 0:\n                begin = orb\n            else:\n                end = orb", "            if listener(begin) * listener(orb) > 0:\n                end = orb\n            else:\n                begin = orb", "R10.3")
+M("C10", "bisect-polarity", LIS, "        while abs(step) >= self._eps_bisect:", "        while abs(step) <= self._eps_bisect:", "R10.3")
+M("C10", "check-override-replaces", LIS, "        if orb2.phi <= 0 or orb2.phi_dot > 0:\n            return False\n        else:\n            return super().check(orb)", "        if orb2.phi <= 0 or orb2.phi_dot > 0:\n            return False\n        else:\n            return True", "R10.4")
+M("C10", "node-label", LIS, 'return NodeEvent(self, "Desc Node" if orb.phi_dot < 0 else "Asc Node")', 'return NodeEvent(self, "Desc Node" if orb.phi_dot > 0 else "Asc Node")', "R10.5")
+M("C10", "node-label-frame", LIS, '        orb = orb.copy(frame=self.frame, form="spherical")\n        return NodeEvent(', '        orb = orb.copy(form="spherical")\n        return NodeEvent(', "R10.5")
+M("C10", "visibility-mutates", STATIONS, '        listeners = kwargs["listeners"] = list(kwargs.get("listeners", []))', '        listeners = kwargs.setdefault("listeners", [])', "R10.6")
+M("C10", "events-after-sample", BASE, "            for listen_orb in self.listen(orb, listeners):\n                yield listen_orb\n            yield orb", "            yield orb\n            for listen_orb in self.listen(orb, listeners):\n                yield listen_orb", "R10.2")
+
+# ---- C11
+M("C11", "axes-lon-sign", ORIENT, "        self._m = rot3(-lon) @ rot2(lat - np.pi / 2.0) @ rot3(np.pi)", "        self._m = rot3(lon) @ rot2(lat - np.pi / 2.0) @ rot3(np.pi)", "R11.1")
+M("C11", "geodetic-z", STATIONS, "        S = C * (1 - Earth.e**2)", "        S = C * (1 - Earth.e)", "R11.2")
+M("C11", "radians-all", STATIONS, "    latlonalt[:2] = np.radians(latlonalt[:2])", "    latlonalt[:3] = np.radians(latlonalt[:3])", "R11.3")
+M("C11", "mask-wrap", STATIONS, "        if next_i - 1 == -1:\n            x0 = 0", "        if next_i - 1 == -1:\n            x0 = x0", "R11.4")
+M("C11", "range-legs", MEAS, "orb.copy(frame=self.frame, form=\"spherical\").r * (len(self.path) - 1),", "orb.copy(frame=self.frame, form=\"spherical\").r * len(self.path),", "R11.5")
+M("C11", "azimut-phi", MEAS, 'self.path, orb.date, orb.copy(frame=self.frame, form="spherical").theta', 'self.path, orb.date, orb.copy(frame=self.frame, form="spherical").phi', "R11.5")
+
+# ---- C12
+M("C12", "reader-slice", TLE, "        self.revolutions = int(second[63:68])", "        self.revolutions = int(second[64:68])", "R12.1")
+M("C12", "writer-width", TLE, "{M:8.4f} {n:11.8f}{revolutions:>5}", "{M:8.4f} {n:12.8f}{revolutions:>4}", "R12.1")
+M("C12", "ndot-scale", TLE, "        self.ndot = float(first[33:43]) * 2", "        self.ndot = float(first[33:43])", "R12.2")
+M("C12", "validation-late", TLE, "        self._check_validity(text)\n        self.text", "        self.text", "R12.3")
+M("C12", "checksum-minus", TLE, 'no_letters = line[:68].translate(tr_table).replace("-", "1")', 'no_letters = line[:68].translate(tr_table).replace("-", "0")', "R12.3")
+M("C12", "cache-not-reset", TLE, "                        log.warning(str(e))\n\n                cache = []", "                        log.warning(str(e))\n                        continue\n\n                cache = []", "R12.3")
+M("C12", "length-68", TLE, "            if len(line) != 69:", "            if len(line) < 69:", "R12.1")
+
+# ---- C13
+M("C13", "xml-key-typo", OPM, '    epoch = ET.SubElement(statevector, "EPOCH")', '    epoch = ET.SubElement(statevector, "EPOCH_")', "B2")
+M("C13", "kvn-only-key", OMM, "MEAN_ANOMALY         = {M:8.4f} [deg]", "MEAN_ANOMALI         = {M:8.4f} [deg]", "B2")
+M("C13", "unit-mismatch", OPM, '        vx = decode_unit(data, "X_DOT", "km/s")\n        vy = decode_unit(data, "Y_DOT", "km/s")\n        vz = decode_unit(data, "Z_DOT", "km/s")\n        x = decode_unit(data, "X", "km")', '        vx = decode_unit(data, "X_DOT", "km/s")\n        vy = decode_unit(data, "Y_DOT", "km/s")\n        vz = decode_unit(data, "Z_DOT", "km/s")\n        x = decode_unit(data, "X", "s")', "B3")
+M("C13", "cov-key-swap", CCOV, '            data["CZ_DOT_X"].text,\n        ],\n        [\n            data["CY_X"].text,', '            data["CZ_DOT_Y"].text,\n        ],\n        [\n            data["CY_X"].text,', "B4")
+M("C13", "cov-alias-dropped", OEM, '                    if frame == "QSW":\n                        frame = "RSW"\n                    cov_text.append', '                    cov_text.append', "B5")
+M("C13", "man-alias-dropped", OPM, '        if man_frame in ("RSW", "RTN"):\n            man_frame = "QSW"\n        man["frame"]', '        man["frame"]', "B5")
+M("C13", "singleton", OEM, "            if isinstance(statevectors, dict):\n                statevectors = [statevectors]\n", "", "B7")
+M("C13", "doppler-reader", TDM, '            elif key == "DOPPLER_INSTANTANEOUS":\n                obj = Doppler(path, date, value)\n', "", "B9")
+M("C13", "body-deref", OPM, "        kep\n        and cart.frame.center.body is not None\n        and cart.frame.orientation in (G50, EME2000, GCRF, MOD, TOD, TEME, CIRF)\n    ):\n        kep = data.copy(form=\"keplerian\")\n        text +=", "        kep\n        and cart.frame.orientation in (G50, EME2000, GCRF, MOD, TOD, TEME, CIRF)\n    ):\n        kep = data.copy(form=\"keplerian\")\n        text +=", "N1")
+M("C13", "dispatch-swap", "beyond/io/ccsds/ccsds.py", '    elif type == "opm":\n        func = opm.loads', '    elif type == "opm":\n        func = omm.loads', "B1")
+M("C13", "center-rule", COMMONS, '    if re.search(r"Barycenter|L\\d", center_txt):', '    if "Barycenter" in center_txt:', "B1")
+M("C13", "omm-ndot-factor", OMM, '                "ndot": decode_unit(tle_params, "MEAN_MOTION_DOT", "rev/day**2") * 2,', '                "ndot": decode_unit(tle_params, "MEAN_MOTION_DOT", "rev/day**2"),', "B3")
+M("C13", "oem-row", OEM, '                    cov["CY_X"] = Field(values[0], {})\n                    cov["CY_Y"] = Field(values[1], {})', '                    cov["CY_Y"] = Field(values[0], {})\n                    cov["CY_X"] = Field(values[1], {})', "B4")
+
+# ---- C14
+M("C14", "snapshot-moved", COVF, '        self._data["frame"] = frame\n\n    @property\n    def _frame', '        self._data["frame"] = frame\n        if frame not in ("TNW", "QSW"):\n            self.orb.frame = frame\n\n    @property\n    def _frame', "R14.1")
+M("C14", "m1-no-transpose", COVF, "            m1 = to_local(self.frame, self.orb).T", "            m1 = to_local(self.frame, self.orb)", "R14.2")
+M("C14", "congruence-order", COVF, "        M = m2 @ m1", "        M = m1 @ m2", "R14.2")
+M("C14", "no-transpose-right", COVF, "        cov = M @ self.base @ M.T", "        cov = M @ self.base @ M", "R14.2")
+M("C14", "drag-new-frame", SV, "        if self.cov is not None and self.cov.frame == old_frame:", "        if self.cov is not None and self.cov.frame == new_frame:", "R14.3")
+M("C14", "orb-frame-reassigned", COVF, "        self.base.setfield(cov, dtype=float)\n", "        self.base.setfield(cov, dtype=float)\n        self._orb_frame = frame\n", "R14.1")
+
+# ---- C15
+M("C15", "copy-shallow", SV, "            new_compl[k] = v.copy() if hasattr(v, \"copy\") else v", "            new_compl[k] = v", "R15.1")
+M("C15", "as-orbit-shallow", SV, "        new_dict = self.copy()._data\n        new_dict[\"propagator\"]", "        new_dict = self._data.copy()\n        new_dict[\"propagator\"]", "R15.1")
+M("C15", "form-label-first", SV, "        self.base.setfield(self._data[\"form\"](self, new_form), dtype=float)\n        self._data[\"form\"] = new_form", "        old = self._data[\"form\"]\n        self._data[\"form\"] = new_form\n        self.base.setfield(old(self, new_form), dtype=float)", "R15.2")
+M("C15", "frame-no-finally", SV, "            finally:\n                self.form = old_form", "            except Exception:\n                raise\n            self.form = old_form", "R15.2")
+M("C15", "setattr-no-alias", SV, "            name = Form.alt.get(name, name)\n\n            # Verification if the variable is available in the current form\n            if name in self.form.param_names:\n                i = self.form.param_names.index(name)\n                self[i] = value", "            # Verification if the variable is available in the current form\n            if name in self.form.param_names:\n                i = self.form.param_names.index(name)\n                self[i] = value", "R15.3")
+M("C15", "finalize-shares-dict", SV, '        object.__setattr__(self, "_data", obj._data.copy())', '        object.__setattr__(self, "_data", obj._data)', "R15.4")
+M("C15", "setstate-key", SV, '        object.__setattr__(self, "_data", state["data"])', '        object.__setattr__(self, "_data", state["_data"])', "R15.4")
+M("C15", "copy-writes-self", SV, "        if frame and frame != self.frame:\n            new_obj.frame = frame", "        if frame and frame != self.frame:\n            self.frame = frame\n            new_obj.frame = frame", "R15.1")
+
+# ---- C16
+M("C16", "phi-entry", CW, "[6 * n * (cs - 1), 0, 0, -2 * sn, 4 * cs - 3, 0],", "[6 * n * (cs - 1), 0, 0, -2 * sn, 4 * cs - 4, 0],", "R16.1")
+M("C16", "psi-entry", CW, "[2 / n * (cs - 1), (4 * sn - 3 * nt) / n, 0],\n                [0, 0, sn / n],\n            ]\n        )\n\n        if self.frame", "[2 / n * (cs - 1), (4 * sn - 3 * nt) / n ** 2, 0],\n                [0, 0, sn / n],\n            ]\n        )\n\n        if self.frame", "R16.1")
+M("C16", "permutation", CW, "    QSW2TNW = np.array([[0, 1, 0], [-1, 0, 0], [0, 0, 1]])", "    QSW2TNW = np.array([[0, 1, 0], [1, 0, 0], [0, 0, 1]])", "R16.2")
+M("C16", "window-onesided", CW, "if isinstance(man, ImpulsiveMan) and self.orbit.date <= man.date <= date:", "if isinstance(man, ImpulsiveMan) and man.date <= date:", "R16.3")
+M("C16", "impulse-on-position", CW, "                orb[3:] += man.dv(orb)", "                orb[:3] += man.dv(orb)", "R16.3")
+M("C16", "mean-motion", CW, "            self._n = np.sqrt(self.frame.center.body.µ / self.sma ** 3)", "            self._n = np.sqrt(self.frame.center.body.µ / self.sma ** 2)", "R16.1")
+R("C16", "refactor-entry", CW, "[4 - 3 * cs, 0, 0, sn / n, 2 / n * (1 - cs), 0],", "[4 - cs * 3, 0, 0, sn / n, (2 - 2 * cs) / n, 0],")
+
+# ---- C17
+M("C17", "tnw-handedness", LOCAL, "    n = np.cross(w, t)\n", "    n = np.cross(t, w)\n", "R17.1")
+M("C17", "qsw-first-axis", LOCAL, "    q = pos / norm(pos)", "    q = vel / norm(vel)", "R17.1")
+M("C17", "row-order", LOCAL, "    return np.array([q, s, w])", "    return np.array([q, w, s])", "R17.1")
+M("C17", "dv-no-transpose", MAN, "            mat = to_local(self.frame, orb, expanded=False).T\n        else:\n            mat = np.identity(3)\n\n        # velocity increment", "            mat = to_local(self.frame, orb, expanded=False)\n        else:\n            mat = np.identity(3)\n\n        # velocity increment", "R17.2")
+M("C17", "impulse-window", MAN, "        return date < self.date <= date + step", "        return date <= self.date <= date + step", "R17.3")
+M("C17", "burn-window", MAN, "        return self.start <= date < self.stop", "        return self.start < date < self.stop", "R17.3")
+M("C17", "dkep-da", MAN, "    dv_a = µ * da / (2 * v * a ** 2)", "    dv_a = µ * da / (2 * v * a)", "R17.4")
+M("C17", "accel-duration", MAN, "            self._accel = self._dv / self.duration.total_seconds()\n        elif len(accel)", "            self._accel = self._dv * self.duration.total_seconds()\n        elif len(accel)", "R17.4")
+
+# ---- C18
+M("C18", "diff-step", SOL, "x[3:] = (x1[:3] - x0[:3]) / (2 * cls._diff_step.total_seconds())", "x[3:] = (x1[:3] - x0[:3]) / cls._diff_step.total_seconds()", "R18.1")
+M("C18", "moon-coefficient", SOL, "            + 6.29 * sin(134.9 + 477198.85 * t_tdb)", "            + 6.92 * sin(134.9 + 477198.85 * t_tdb)", "R18.2")
+M("C18", "moon-rotation", SOL, "cos(e_bar) * cos(phi_el) * sin(lambda_el) - sin(e_bar) * sin(phi_el),", "cos(e_bar) * cos(phi_el) * sin(lambda_el) + sin(e_bar) * sin(phi_el),", "R18.2")
+M("C18", "sun-scale", SOL, '        date = date.change_scale("UT1")\n        t_ut1', '        date = date.change_scale("TT")\n        t_ut1', "R18.2")
+M("C18", "jpl-sign", JPL, "            sign = -1\n        else:", "            sign = 1\n        else:", "R18.3")
+M("C18", "jpl-days", JPL, "            pv = np.concatenate((pos, vel / S_PER_DAY))", "            pv = np.concatenate((pos, vel))", "R18.3")
+M("C18", "jpl-utc", JPL, '        date = date.change_scale("TDB")\n\n        if (self.obj.index', '        date = date.change_scale("TT")\n\n        if (self.obj.index', None)
+
+# ---- C19
+M("C19", "lambert-polarity", LAM, "            if abs(ratio) < tol:", "            if abs(ratio) > tol:", "R19.1")
+M("C19", "stumpff", LAM, "        s = (np.sqrt(z) - np.sin(np.sqrt(z))) / (np.sqrt(z)) ** 3", "        s = (np.sqrt(z) - np.sin(np.sqrt(z))) / (np.sqrt(z)) ** 2", "R19.1")
+M("C19", "ltan-modulus", LTAN, "    return (43200 + (raan - sun_raan) * 43200 / np.pi) % 86400", "    return (43200 + (raan - sun_raan) * 86400 / np.pi) % 86400", "R19.2")
+M("C19", "sso-arm", LEO, "        return (-3 / 2 * cst * np.cos(i) / (ω_e * (1 - e ** 2) ** 2)) ** (2 / 7)", "        return (-3 / 2 * cst * np.cos(i) / (ω_e * (1 - e ** 2))) ** (2 / 7)", "R19.2")
+M("C19", "walker-phasing", CONS, "            + self.spacing * (self.raan(i_plane) - self.raan0) / self.per_plane\n        )\n", "            + self.spacing * (self.raan(i_plane) - self.raan0) / self.planes\n        )\n", "R19.2")
+M("C19", "walker-star-spacing", CONS, "        return np.pi / self.planes * i_plane + self.raan0", "        return 2 * np.pi / self.planes * i_plane + self.raan0", "R19.2")
+M("C19", "beta-cos", BETAU, "    return np.arcsin(w @ ref_pos / (np.linalg.norm(w) * np.linalg.norm(ref_pos)))", "    return np.arccos(w @ ref_pos / (np.linalg.norm(w) * np.linalg.norm(ref_pos)))", "R19.3")
+M("C19", "bplane-R", INTER, "    R = np.cross(S, T)", "    R = np.cross(T, S)", "R19.3")
